@@ -252,7 +252,7 @@ func c03RawTargetIsSigner(r *Report, sj *ssa.Function) {
 		r.Lost(key, rule, "SignJWS not found")
 		return
 	}
-	calls := Calls(sj, Fn(jwkPkg, "Key", "Raw"))
+	calls := r.P.CallsNear(sj, Fn(jwkPkg, "Key", "Raw"))
 	r.Sites += len(calls)
 	if len(calls) != 1 {
 		r.Bad(key, rule, r.P.Pos(sj.Pos()), fmt.Sprintf("%d jwk.Key.Raw calls", len(calls)))
